@@ -444,8 +444,10 @@ def c01b(F, R):
     set_out = [p for p, fld in setters.items() if fld == "reg_values_out"][0]
     done = False
     pubs = [n for n in walk(f["hir"]["value"], pats=False) if n.get("k") in ("MethodCall", "Call") and callee_of(n) == set_out]
+    # the publication of computed facts takes a local; `set_..(AvailableValueMap::new())` is a reset, not a publication
+    pubs = [n for n in pubs if peel(call_recv_args(n)[1][0]).get("k") == "Path" and peel(call_recv_args(n)[1][0]).get("res_kind") == "Local"]
     if not pubs:
-        raise Anchor("set_reg_values_out is not called in AvailableValuePass::run")
+        raise Anchor("set_reg_values_out is not called with computed facts in AvailableValuePass::run")
     OUT = ekey(call_recv_args(pubs[0])[1][0])
     for b, i in blocks_with_let(f["hir"]["value"], OUT):
         init = b["stmts"][i].get("init") or {}
@@ -1773,6 +1775,27 @@ def c12g(F, R):
                     if m.get("k") == "Loop" or (m.get("k") == "Match" and m.get("src") == "ForLoopDesugar"):
                         tryrets |= {id(n) for n in walk(m, pats=False) if n.get("k") in ("Break", "Continue")}
             skips = [n for n in skips if id(n) not in tryrets]
+            # a skip is sound when it says "nothing is known here yet": it sits under a test that no predecessor has been evaluated
+            # (`!prevs().iter().any(|x| visited.contains(x))`) and the same block resets every fact of the node before leaving
+            def _is_wait_for_pred(n):
+                from .p_parse import parent_map
+                pmb = parent_map(body)
+                x = n
+                blk = None
+                while id(x) in pmb:
+                    x = pmb[id(x)]
+                    if x.get("k") == "Block" and blk is None:
+                        blk = x
+                    if x.get("k") == "If":
+                        c = list(walk(x["cond"], pats=False)) + [y for cl in walk(x["cond"], pats=False) if cl.get("k") == "Closure" for y in walk(cl.get("body") or {}, pats=False)]
+                        tests_visited = any(m.get("k") == "MethodCall" and m["name"] == "contains" and "visited" in ekey(m["recv"]) for m in c) and \
+                            any(m.get("k") == "MethodCall" and m["name"] == "prevs" for m in c) and any(m.get("k") == "MethodCall" and m["name"] == "any" for m in c)
+                        negated = any(u.get("k") == "Unary" and u["op"] == "Not" and any(m.get("k") == "MethodCall" and m["name"] == "any" for m in walk(u, pats=False)) for u in c)
+                        resets = blk is not None and {callee_of(m) for m in walk(blk, pats=False) if m.get("k") in ("MethodCall", "Call") and callee_of(m) in setters} >= {p_ for p_, fld in setters.items() if fld in ("reg_values_out", "memory_values_out", "reg_values_in", "memory_values_in")} if name == "AvailableValuePass" else True
+                        if tests_visited and negated and resets:
+                            return True
+                return False
+            skips = [n for n in skips if not (n.get("k") == "Continue" and _is_wait_for_pred(n))]
             if skips:
                 R.bad(f"{name}|skip", f"{name}: a `{skips[0]['k'].lower()}` leaves the per-node body before the node's out-facts are recomputed: a node is not re-evaluated in this sweep (e.g. because its ins did not change), although its transfer function also depends on state other than its ins", loc(skips[0]))
             else:
@@ -1935,3 +1958,41 @@ def c02h(F, R):
             R.ok(key, detail=f"is_some_jump_to_label = {r}")
         else:
             R.bad(key, f"`{v.lower()}` with {env}: is_some_jump_to_label answers {r}, expected {want}: a conditional branch to a function label is no longer a call site, so the callee's argument registers are not live before it (false `Unused value` on the argument set-up)", F.fn(F.method(PNODE, "is_some_jump_to_label", trait=IPROPS))["sp"])
+
+
+@rule("C12", "C12.h.meet-over-evaluated-predecessors-only", floor=2)
+@rule("C06", "C06.u.meet-over-evaluated-predecessors-only", floor=2)
+def c06u(F, R):
+    """a "must" meet (intersection over predecessors) that only looks at the predecessors evaluated so far must not fall back to the empty set when none has been: the empty set is the *bottom* of an intersection, and an "I know nothing" state then travels round every cycle with two back edges, chased by the real state, for ever. The node has to wait until one predecessor is evaluated (or have no predecessor at all)"""
+    for f, name in ((_avpass_run(F), "AvailableValuePass"), (_livepass_run(F), "LivenessPass")):
+        body = f["hir"]["value"]
+        sites = []
+        for m in walk(body, pats=False):
+            if m.get("k") == "MethodCall" and m["name"] in ("unwrap_or_default", "unwrap_or") and peel(m["recv"]).get("k") == "MethodCall" and peel(m["recv"])["name"] == "reduce":
+                red = peel(m["recv"])
+                cl = peel(red["args"][0]) if red["args"] else {}
+                inter = any((x.get("k") == "AssignOp" and x["op"] == "BitAndAssign") or (x.get("k") == "Binary" and x["op"] == "BitAnd") for x in walk(cl.get("body") or {}, pats=False))
+                chain = list(walk(red["recv"], pats=False))
+                over_prevs = any(x.get("k") == "MethodCall" and x["name"] == "prevs" for x in chain)
+                filtered = any(x.get("k") == "MethodCall" and x["name"] == "filter" for x in chain)
+                if inter and over_prevs and filtered:
+                    sites.append(m)
+        if not sites:
+            continue
+        # the wait: `if .. !node.prevs().iter().any(|x| visited.contains(x)) { .. continue }` earlier in the per-node body
+        waits = False
+        for fl in for_loops(body):
+            stmts = peel(fl["body"]).get("stmts") or []
+            for st in stmts:
+                e = peel(st.get("e") or {})
+                if e.get("k") == "If" and any(y.get("k") == "Continue" for y in walk(e["then"], pats=False)):
+                    c = list(walk(e["cond"], pats=False)) + [y for cl in walk(e["cond"], pats=False) if cl.get("k") == "Closure" for y in walk(cl.get("body") or {}, pats=False)]
+                    if any(m.get("k") == "MethodCall" and m["name"] == "contains" and "visited" in ekey(m["recv"]) for m in c) and any(m.get("k") == "MethodCall" and m["name"] == "prevs" for m in c) \
+                            and any(u.get("k") == "Unary" and u["op"] == "Not" for u in c):
+                        first_site = min(i for i, s2 in enumerate(stmts) if any(y is sites[0] for y in walk(s2, pats=False))) if any(any(y is sites[0] for y in walk(s2, pats=False)) for s2 in stmts) else 10 ** 6
+                        if stmts.index(st) < first_site:
+                            waits = True
+        if waits:
+            R.ok(name, detail=f"{name}: {len(sites)} intersection meet(s) over evaluated predecessors; a node without an evaluated predecessor waits", where=loc(sites[0]))
+        else:
+            R.bad(name, f"{name}: {len(sites)} intersection meet(s) over the predecessors evaluated so far fall back to the empty set when there is none: on a cycle with two back edges (in sweep order) the empty state and the real state chase each other and the `while changed` loop never ends", loc(sites[0]))
